@@ -240,7 +240,8 @@ def rule_option_scope(ctx, cd):
         "the endianness option influences type templates only by selecting between an aligned fast path and the generic "
         "support call: template paths that differ only in LITTLE_ENDIAN have the same cursor advances and the same "
         "representation-error exits; the option never guards a capacity or representation check; the expression handed to the "
-        "assert() macro (emitted only when assertion generation is on) has no effect of its own",
+        "assert() macro (emitted only when assertion generation is on) has no effect of its own; the allocator-extended copy / move "
+        "constructors of C++ union types take their value from rhs like those of structures (allocator flavour)",
     )
     n = 0
     for lang in ("c", "cpp"):
@@ -290,6 +291,38 @@ def rule_option_scope(ctx, cd):
                    "" if ok else f"`{hit.group(0)}` is evaluated only when assertion generation is on: with the option off the statement vanishes together with "
                    "its effect, so the generated code behaves differently for the two settings", getattr(node, "lineno", None))
     ctx.floor(R + ":asserts", n_as, 60)
+    # allocator flavour (c++17-pmr, cetl): containers with a non-default allocator construct their elements through the
+    # allocator-extended copy / move constructors.  In _composite_type.j2 each of them has a structure branch (every field initialised by
+    # value_initializer(SpecialMethod.<KIND>)) and a union branch (union_value{...}); where the structure branch takes the value from
+    # rhs, the union branch must as well - otherwise an array of unions decodes to default-initialised elements under those standards only.
+    ct = cd.ts.get("cpp", "_composite_type.j2")
+    n_ctor = 0
+    for node in ct.ast.find_all(N.If):
+        tst, pol = node.test, True
+        while isinstance(tst, N.Not):
+            tst, pol = tst.node, not pol
+        if node.elif_ or not re.fullmatch(r"\(\w+\.inner_type is UnionType\)", xs(tst)):
+            continue
+        ub, sb = (node.body, node.else_) if pol else (node.else_, node.body)
+        utext = "".join(d.data for b in ub for d in b.find_all(N.TemplateData))
+        if "union_value{" not in utext:
+            continue
+        kinds = {re.search(r"SpecialMethod\.(\w+)", xs(f_)).group(1) for b in sb for f_ in b.find_all(N.Filter) if f_.name == "value_initializer" and "SpecialMethod." in xs(f_)}
+        if len(kinds) != 1:
+            continue
+        kind = next(iter(kinds))
+        n_ctor += 1
+        init = re.search(r"union_value\{([^}]*)\}", utext).group(1).replace(" ", "")
+        if "COPY" in kind:
+            ok = init == "rhs.union_value"
+        elif "MOVE" in kind:
+            ok = init in ("std::move(rhs.union_value)", "std::move(rhs).union_value")
+        else:
+            ok = "rhs" not in init
+        ctx.ob(R, ct.rel, f"cpp: {kind}: the union branch takes its value where the structure branch does", ok,
+               "" if ok else f"union_value{{{init}}}: a union constructed through this constructor (std::vector with a polymorphic allocator does so for every "
+               "element it moves or copies) starts default-initialised, so decoded values depend on the C++ standard / allocator flavour", node.lineno)
+    ctx.floor(R + ":allocator-ctors", n_ctor, 3)
     # LITTLE_ENDIAN is derived from the option in exactly one way
     for lang, f in (("c", "definitions.j2"), ("cpp", "_definitions.j2")):
         t = cd.ts.get(lang, f)
